@@ -27,7 +27,7 @@ RULE = ('a case = one history (files x records x decorations) x loader settings 
 ASSUMPTIONS = ['virtual clock patched over cpppo.history.files.timer and cpppo.history.times.timer',
                'out-of-order timestamps are not generated (the loader documents that it ignores them)']
 REQUIRED = ['state:INITIAL', 'state:SWITCHING', 'state:STREAMING', 'state:EXHAUSTED', 'state:AWAITING', 'state:COMPLETE',
-            'replay:completed', 'history:single-record-file', 'history:equal-ts-inside-file', 'history:equal-ts-across-files', 'history:compressed-copy',
+            'replay:completed', 'history:single-record-file', 'history:equal-ts-inside-file', 'history:equal-ts-across-files', 'history:compressed-copy', 'history:delaycompress-layout',
             'history:comment-line', 'history:unusual-path', 'history:corrupt-json-line', 'monitor:on-time-rounds', 'monitor:final-values', 'setting:limit', 'setting:lookahead', 'setting:duration',
             'start:inside', 'start:before', 'start:after']
 TIMEOUT = {'quick': 300, 'thorough': 1800}
@@ -85,6 +85,13 @@ def gen_case(rng):
         if fi < nfiles - 1:          # every file but the newest may have a compressed copy
             comp = rng.choice([None, None, 'gz', 'bz2', 'gz+plain', 'bz2+plain'])
         files.append({'lines': lines, 'comp': comp})
+    if nfiles >= 12 and rng.random() < 0.6:
+        # the rotation layout of logrotate's delaycompress: the newest and the first rotated file plain (the latter perhaps also
+        # compressed already), every older one compressed only -- indices 10, 11 share their leading digit with index 1
+        for fi, f in enumerate(files):
+            e = nfiles - 1 - fi
+            f['comp'] = None if e == 0 else rng.choice([None, 'gz+plain', 'bz2+plain']) if e == 1 else rng.choice(['gz', 'bz2'])
+        files[0]['layout'] = 'delaycompress'
     recs = [l for f in files for l in f['lines'] if l[0] == 'rec']
     first, last = recs[0][1], recs[-1][1]
     r = rng.random()
@@ -339,6 +346,8 @@ def run_case(ctx, case, keep=None):
             ctx.count('history:equal-ts-across-files')
         if any(f['comp'] for f in fl):
             ctx.count('history:compressed-copy')
+        if fl and fl[0].get('layout') == 'delaycompress':
+            ctx.count('history:delaycompress-layout')
         for kind, name in (('comment', 'comment-line'), ('badjson', 'corrupt-json-line'), ('badts', 'corrupt-timestamp-line'), ('notabs', 'tabless-line')):
             if any(l[0] == kind for f in fl for l in f['lines']):
                 ctx.count('history:' + name)
